@@ -9,6 +9,7 @@ function of output `o` with symbol `g` is the term constructor `g(arg,…)`.
     out <label> <symbol> <column> body output, its function symbol, its column name
     iter <k>… | zip <k>…          looped keys            form df|lists      cache on|off
     gatecache on|off  clearonfail on|off      cache policy of the library on refused / failed runs
+    startabort on|off                         does a failing starting node abort the composite run
     begin                          make the for-node
     set <k> nd | one <v> | many <v>…
     run <completed body indices>   → res / outputs / children      (runq: without children)
@@ -24,6 +25,7 @@ structure DSt where
   useCache : Bool := true
   gateCache : Bool := false
   clearOnFail : Bool := false
+  startAbort : Bool := false
   cur : Cur String String := []
   st : St String String := { children := [], outs := .df none, cached := none }
   begun : Bool := false
@@ -39,6 +41,7 @@ def DSt.spec (d : DSt) : Spec String String :=
     useCache := d.useCache
     gateCache := d.gateCache
     clearOnFail := d.clearOnFail
+    startAbort := d.startAbort
     colmap := fun o => ((d.outs.lookup o).map (·.2)).getD o
     bodyFn := fun o args => (((d.outs.lookup o).map (·.1)).getD "?") ++ "(" ++ ",".intercalate args ++ ")"
     listVal := fun vs => "[" ++ ",".intercalate vs ++ "]" }
@@ -114,6 +117,8 @@ def step (d : DSt) (ws : List String) : DSt × List String :=
   | ["gatecache", "on"] => if d.begun then (d, ["bad-op"]) else ({ d with gateCache := true }, [])
   | ["gatecache", "off"] => if d.begun then (d, ["bad-op"]) else ({ d with gateCache := false }, [])
   | ["clearonfail", "on"] => if d.begun then (d, ["bad-op"]) else ({ d with clearOnFail := true }, [])
+  | ["startabort", "on"] => if d.begun then (d, ["bad-op"]) else ({ d with startAbort := true }, [])
+  | ["startabort", "off"] => if d.begun then (d, ["bad-op"]) else ({ d with startAbort := false }, [])
   | ["clearonfail", "off"] => if d.begun then (d, ["bad-op"]) else ({ d with clearOnFail := false }, [])
   | ["begin"] =>
     if d.begun then (d, ["bad-op"]) else
